@@ -178,7 +178,12 @@ fn gen_case(idx: usize, r: &mut Rng) -> Case {
     }
     let has_second = matches!(alg, 0 | 1 | 7 | 8);
     let combos = if has_second { 64 } else { 16 };
-    let extra = if has_second { 16 } else { 12 };
+    let extra = match alg {
+        5 => 32,
+        7 => 48,
+        0 | 1 | 8 => 16,
+        _ => 12,
+    };
     let ci = k % (combos + extra);
     let n = if r.chance(1, 12) { 0 } else { r.range(1, 8) as usize };
     let (vp, vw, v2) = if ci < combos {
@@ -187,9 +192,19 @@ fn gen_case(idx: usize, r: &mut Rng) -> Case {
         (Var::Eq, Var::Eq, Var::Eq)
     };
     let mut n = n;
-    let sys = k / (combos + extra); // systematic index for the positional families
+    // positional families (VnBest: negative weight at position j; FM: id above one at position
+    // j): the t-th well-formed slot of the algorithm enumerates every (n, j), j < n <= 8
+    let mut positional: Option<(usize, bool)> = None; // (j, float weights)
     if ci >= combos && matches!(alg, 5 | 7) {
-        n = 1 + sys % 8;
+        let t = (k / (combos + extra)) * extra + (ci - combos);
+        let period = if alg == 5 { 3 } else { 4 };
+        if t % period != period - 1 {
+            let u = (t / period) * (period - 1) + t % period;
+            let pairs: Vec<(usize, usize)> = (1..=8).flat_map(|n| (0..n).map(move |j| (n, j))).collect();
+            let (pn, pj) = pairs[u % pairs.len()];
+            n = pn;
+            positional = Some((pj, (u / pairs.len()) % 2 == 1));
+        }
     }
     let plen = vary(vp, n, r);
     let wlen = vary(vw, n, r);
@@ -205,7 +220,7 @@ fn gen_case(idx: usize, r: &mut Rng) -> Case {
     // weights
     let zero_ok = matches!(alg, 2 | 3 | 4 | 5 | 6);
     let mut ws: Vec<i64> = (0..wlen).map(|_| if zero_ok && r.chance(1, 4) { 0 } else { r.range(1, 9) }).collect();
-    if alg == 5 && wlen > 0 && r.chance(1, 10) {
+    if alg == 5 && wlen > 0 && positional.is_none() && r.chance(1, 10) {
         ws.iter_mut().for_each(|w| *w = 0); // all-zero early Ok
     }
     c.weights = Weights::I(ws.clone());
@@ -226,34 +241,42 @@ fn gen_case(idx: usize, r: &mut Rng) -> Case {
         (0..plen).map(|i| 40000 + 7 * i).collect() // garbage ids (errors come before any allocation)
     };
     // positional families
-    if alg == 7 && plen > 0 && (ci >= combos || r.chance(1, 4)) {
+    if alg == 7 && plen > 0 && (positional.is_some() || (ci < combos && r.chance(1, 4))) {
         // ids above one: position j, value 2 / small / large
-        let j = if ci >= combos { (sys / 8) % plen } else { r.below(plen as u64) as usize };
+        let j = match positional {
+            Some((j, _)) => j,
+            None => r.below(plen as u64) as usize,
+        };
         c.p0[j] = match r.below(3) {
             0 => 2,
             1 => 2 + r.below(5) as usize,
             _ => usize::MAX - r.below(3) as usize,
         };
-        if ci >= combos {
+        if positional.is_some() {
             c.family = "ids_above_one".into();
         }
     }
-    if alg == 5 && wlen > 0 && (ci >= combos || r.chance(1, 4)) {
-        let j = if ci >= combos { (sys / 8) % wlen } else { r.below(wlen as u64) as usize };
-        let float = (sys / 64) % 2 == 1 || (ci < combos && r.chance(1, 2));
+    if alg == 5 && wlen > 0 && (positional.is_some() || (ci < combos && r.chance(1, 4))) {
+        let (j, float) = match positional {
+            Some(x) => x,
+            None => (r.below(wlen as u64) as usize, r.chance(1, 2)),
+        };
         if float {
-            let mut f: Vec<f64> = ws.iter().map(|w| if *w == 0 && r.chance(1, 2) { -0.0 } else { *w as f64 + 0.5 * (*w != 0) as i64 as f64 }).collect();
+            let mut f: Vec<f64> = ws
+                .iter()
+                .map(|w| if *w == 0 { if r.chance(1, 2) { -0.0 } else { 0.0 } } else { *w as f64 + 0.5 })
+                .collect();
             f[j] = *r.pick(&[-1.0, -0.5, -1e-300, -1e300, f64::NEG_INFINITY]);
             c.weights = Weights::F(f);
         } else {
             ws[j] = *r.pick(&[-1, -2, -1000, i64::MIN]);
             c.weights = Weights::I(ws.clone());
         }
-        if ci >= combos {
+        if positional.is_some() {
             c.family = "negative_weight".into();
         }
     }
-    if matches!(alg, 5 | 6 | 8) && plen > 0 && r.chance(1, 16) {
+    if matches!(alg, 5 | 6 | 8) && plen > 0 && positional.is_none() && r.chance(1, 16) {
         let j = r.below(plen as u64) as usize;
         c.p0[j] = usize::MAX; // 1 + max(ids) overflows
         c.family = "id_usize_max".into();
